@@ -30,6 +30,21 @@ theorem Quiet7.of_quiet {s s' : State} (q : QuietStep s s') : Quiet7 s s' :=
 
 theorem withFaults_q (s : State) (f pf : Nat) : Quiet7 s (withFaults s f pf) := Quiet7.of_eq rfl rfl rfl rfl
 
+/-- `Quiet7` for the pools that satisfy `S` only -/
+structure Quiet7On (S : String → Prop) (s s' : State) : Prop where
+  pools : s'.pools = s.pools
+  coh : Coherent s → Coherent s'
+  cnt : ∀ P, P ≠ "" → S P → cntp (mP P) s'.alloc ≤ cntp (mP P) s.alloc
+
+theorem Quiet7.on {s s' : State} (q : Quiet7 s s') (S : String → Prop) : Quiet7On S s s' :=
+  ⟨q.pools, q.coh, fun P hP _ => q.cnt P hP⟩
+
+theorem Quiet7On.trans {S : String → Prop} {a b c : State} (h1 : Quiet7On S a b) (h2 : Quiet7On S b c) : Quiet7On S a c :=
+  ⟨h2.pools.trans h1.pools, fun h => h2.coh (h1.coh h), fun P hP hS => Nat.le_trans (h2.cnt P hP hS) (h1.cnt P hP hS)⟩
+
+theorem Quiet7On.all {s s' : State} (q : Quiet7On (fun _ => True) s s') : Quiet7 s s' :=
+  ⟨q.pools, q.coh, fun P hP => q.cnt P hP trivial⟩
+
 /-! ### unbind, deliver -/
 
 theorem unbindDp_q (s : State) (k : Key) (policy : Nat) : Quiet7 s (unbindDp s k policy).1 :=
@@ -230,9 +245,10 @@ theorem allocateInSubnetsAndRanges_pools (s : State) (key : Key) (n : Subnet) (r
     without pool annotation -/
 theorem bindAlloc_q (s : State) (pod : Pod) (node : String) (policy : Nat) (infos : List (Option IP)) (pick : Option IP)
     (hinfos : infos = byKeyAndRanges s (keyOf pod) pod.ranges ∨ (pod.ranges.isEmpty = true ∧ ¬ infos.isEmpty = true))
-    (h : bindAllocates infos pod = false ∨ (keyOf pod).pool = "") :
-    Quiet7 s (bindAlloc s pod node { policy := policy, node := node, uid := pod.uid } infos pick).1 := by
-  refine ⟨?_, fun hc => (bindAlloc_spec s pod node policy infos pick hc hinfos).coherent, ?_⟩
+    (hcm : s.crashMode = false) (S : String → Prop)
+    (h : bindAllocates infos pod = false ∨ ∀ P, P ≠ "" → S P → (keyOf pod).pool ≠ P) :
+    Quiet7On S s (bindAlloc s pod node { policy := policy, node := node, uid := pod.uid } infos pick).1 := by
+  refine ⟨?_, fun hc => (bindAlloc_spec s pod node policy infos pick hc hinfos).coherent (Or.inl hcm), ?_⟩
   · unfold bindAlloc
     split
     · have qq := (queryNodeSubnet_quiet s node).1
@@ -240,7 +256,7 @@ theorem bindAlloc_q (s : State) (pod : Pod) (node : String) (policy : Nat) (info
       · exact qq.frame.pools
       · exact (allocateInSubnetsAndRanges_pools _ _ _ _ _ _).trans qq.frame.pools
     · rfl
-  · intro P hP
+  · intro P hP hS
     unfold bindAlloc
     split
     · rename_i hcond
@@ -254,7 +270,7 @@ theorem bindAlloc_q (s : State) (pod : Pod) (node : String) (policy : Nat) (info
           rw [h] at hcond
           exact absurd hcond (by decide)
         · have hm : mP P (keyOf pod) = false := by
-            unfold mP; rw [h]; simpa using fun e => hP e
+            unfold mP; simpa using h P hP hS
           have := allocateInSubnetsAndRanges_cntp (mP P) (queryNodeSubnet s node).1 (keyOf pod) n
             (unfoundRanges infos pod.ranges) { policy := policy, node := node, uid := pod.uid } pick hm
           rw [qq.alloc] at this
@@ -284,38 +300,60 @@ theorem bindInfos_shape (s : State) (pod : Pod) (ch : Choice) (infos : List (Opt
     | some ip => rw [hp] at h; simp at h; subst h; simp
   · left; simpa using h.symm
 
-theorem bind_q (F : Plugin.Facts) (s : State) (ns name : String) (uid : Nat) (node : String) (ch : Choice)
-    (hok : bindOK s ns name ch = true) : Quiet7 s (Plugin.bind F s ns name uid node ch).1 := by
+theorem bindCommitX_q (s : State) (pod : Pod) (ns name : String) (uid : Nat) (node : String) (ips : List IP) :
+    Quiet7 s (bindCommitX s pod ns name uid node ips).1 := by
+  unfold bindCommitX
+  split
+  · exact Quiet7.of_quiet (api_quiet s)
+  · exact bindCommit_q s pod ns name uid node ips
+
+/-- Bind leaves the count of every pool in `S` alone, provided it allocates nothing or the pod's key is in none of
+    the pools of `S` -/
+theorem bind_on (F : Plugin.Facts) (s : State) (ns name : String) (uid : Nat) (node : String) (ch : Choice)
+    (hcm : s.crashMode = false) (S : String → Prop)
+    (hok : bindOK s ns name ch = true ∨
+      ∀ pod, Tbl.get s.vPods (ns, name) = some pod → ∀ P, P ≠ "" → S P → (keyOf pod).pool ≠ P) :
+    Quiet7On S s (Plugin.bind F s ns name uid node ch).1 := by
+  have same : Quiet7On S s s := (Quiet7.refl s).on S
   unfold Plugin.bind
   split
-  · exact Quiet7.refl s
+  · exact same
   · rename_i pod hpod
     split
-    · exact Quiet7.refl s
+    · exact same
     · split
-      · exact Quiet7.refl s
+      · exact same
       · split
-        · exact Quiet7.refl s
+        · exact same
         · rename_i infos hinf
           split
-          · exact Quiet7.refl s
-          · have hcond : bindAllocates infos pod = false ∨ (keyOf pod).pool = "" := by
-              unfold bindOK at hok
-              rw [hpod] at hok
-              simp only [hinf] at hok
-              rcases Bool.or_eq_true_iff.mp hok with h | h
-              · left; simpa using h
-              · right; simpa using h
-            have ba := bindAlloc_q s pod node (policyOf pod) infos ch.pick (bindInfos_shape s pod ch infos hinf) hcond
+          · exact same
+          · have hcond : bindAllocates infos pod = false ∨ ∀ P, P ≠ "" → S P → (keyOf pod).pool ≠ P := by
+              rcases hok with hok | hok
+              · unfold bindOK at hok
+                rw [hpod] at hok
+                simp only [hinf] at hok
+                rcases Bool.or_eq_true_iff.mp hok with h | h
+                · left; simpa using h
+                · right
+                  intro P hP _ e
+                  have h0 : (keyOf pod).pool = "" := by simpa using h
+                  exact hP (e.symm.trans h0)
+              · exact Or.inr (hok pod hpod)
+            have ba := bindAlloc_q s pod node (policyOf pod) infos ch.pick (bindInfos_shape s pod ch infos hinf) hcm S hcond
             split
-            · exact Quiet7.refl s
+            · exact same
             · exact ba
-            · have bl := ba.trans (bindLoop_q (keyOf pod) node { policy := policyOf pod, node := node, uid := pod.uid }
+            · have bl := ba.trans ((bindLoop_q (keyOf pod) node { policy := policyOf pod, node := node, uid := pod.uid }
                 (infos.filterMap id) ((bindAlloc s pod node { policy := policyOf pod, node := node, uid := pod.uid } infos
                   ch.pick).2.2.filterMap id) (bindAlloc s pod node { policy := policyOf pod, node := node, uid := pod.uid } infos
-                  ch.pick).1)
+                  ch.pick).1).on S)
               split
-              · exact bl.trans (bindCommit_q _ pod ns name uid node _)
+              · exact bl.trans ((bindCommitX_q _ pod ns name uid node _).on S)
               · exact bl
+
+theorem bind_q (F : Plugin.Facts) (s : State) (ns name : String) (uid : Nat) (node : String) (ch : Choice)
+    (hcm : s.crashMode = false) (hok : bindOK s ns name ch = true) : Quiet7 s (Plugin.bind F s ns name uid node ch).1 :=
+  (bind_on F s ns name uid node ch hcm (fun _ => True) (Or.inl hok)).all
 
 end Galaxy.PluginC07
